@@ -7,7 +7,7 @@ cd "$(dirname "$0")/.."
 list=$(mktemp -p /dev/shm)
 for p in mutants/*.patch; do n=$(basename $p .patch); id=$(echo ${n%%_*} | tr c C); echo "$p $id $n" >> $list; done
 for d in seeded/*/; do n=$(basename $d); ids=$(/venv/bin/python -c "import json;print(' '.join(json.load(open('$d/meta.json'))['caught_by'][:1]))"); echo "$d/patch.diff $ids seed:$n" >> $list; done
-one() { p=$1; id=$2; n=$3; c=$(MUT_LINES=200 tools/mutate.sh $p $id 2>&1 | grep -c "VIOLATION property=$id"); if [ "$c" -gt 0 ]; then echo "$n $id caught"; else echo "$n $id MISSED"; fi; }
+one() { p=$1; id=$2; n=$3; out=$(MUT_LINES=200 tools/mutate.sh $p $id 2>&1); c=$(echo "$out" | grep -c "VIOLATION property=$id"); if echo "$out" | grep -q "PATCH DOES NOT APPLY"; then echo "$n $id NOAPPLY"; elif [ "$c" -gt 0 ]; then echo "$n $id caught"; elif grep -q "^$n " mutants/EQUIVALENT.txt; then echo "$n $id equivalent(MISSED as expected)"; else echo "$n $id MISSED"; fi; }
 export -f one
 cat $list | xargs -P $J -L 1 bash -c 'one $0 $1 $2'
 rm -f $list
